@@ -40,6 +40,9 @@ impl<'c, KD: Kind, const N: usize> MapEng<'c, KD, N> {
             let cx = &mut *self.cx;
             let present = slot.model.get(&k).copied();
             let full = slot.model.len() >= N;
+            if full {
+                self.op_overflow = true;
+            }
             let sub = scale(c.wrapping_mul(2) | (b & 1), 13);
             // sub 0..=5 general chains; 6.. match on the variant with a method fitting the model
             let (name, msub): (&'static str, usize) = if sub < 6 {
